@@ -41,6 +41,8 @@ type Frame struct {
 	depth    int
 	loopIn   map[int]bool // loops (header index) whose head state this path is inside of
 	variants map[int]Term
+	heads    map[int]*State
+	headFr   *Frame
 }
 
 func (fr *Frame) clone() *Frame {
@@ -63,6 +65,8 @@ func (fr *Frame) clone() *Frame {
 	for k, v := range fr.variants {
 		n.variants[k] = v
 	}
+	n.heads = fr.heads
+	n.headFr = fr.headFr
 	n.loopIn = make(map[int]bool, len(fr.loopIn))
 	for k, v := range fr.loopIn {
 		n.loopIn[k] = v
@@ -401,6 +405,7 @@ func (x *Exec) step(fr *Frame, st *State, ins ssa.Instruction) {
 			x.initArray(st, r, at.Elem())
 		} else {
 			x.store(st, p, x.zeroVal(et))
+			x.markDirty(st, p)
 		}
 		fr.vals[ins] = Sc{r, ins.Type()}
 	case *ssa.Store:
